@@ -235,6 +235,21 @@ def run_unit(unit, repo, rlimit=30, seed=None, extra=None, tag=''):
                 # verus says failed but no diagnostic was attributed: be conservative
                 by_fn[id(fi)][-1].ok = False
                 by_fn[id(fi)][-1].detail = 'verus reports the function as failed (no attributable diagnostic)'
+    # a function whose proof hints could not be placed (lost anchor) and which now fails is UNDECIDED, not violated
+    lost_und = []
+    for fi in g.fns:
+        if fi.trusted or id(fi) not in by_fn or not getattr(fi, 'lost', None):
+            continue
+        if any(ob.ok is False for ob in by_fn[id(fi)]):
+            for ob in by_fn[id(fi)]:
+                if ob.ok is False:
+                    ob.ok = 'undecided'
+                    ob.detail = 'lost anchor (%s); ' % '; '.join(fi.lost) + ob.detail
+            lost_und.append('%s: lost anchor %s' % (fi.qname, '; '.join(fi.lost)))
+    if lost_und and not stray:
+        res.status = 'undecided'
+        res.reason = 'contract text could not be placed: ' + ' | '.join(lost_und[:6])
+        return res
     if stray:
         # errors in the prelude / lemmas: the unit's own proof text is broken -> undecided
         res.status = 'undecided'
